@@ -264,6 +264,7 @@ Proof. vm_compute. repeat split; reflexivity. Qed.
    The other posting of an adjustment goes to Income:..., for which the clause is false
    (C16_valuation_open_refuted above, F16). *)
 From Knut Require Import Proofs.TranscodeOpenAL.
+Open Scope Z_scope.
 
 Theorem C16_adjusted_account_open : forall l v sds dl days pre t post,
   parse_directives sds = MOk dl -> postings_syntactic dl ->
@@ -290,3 +291,39 @@ Example C16_adjusted_account_example :
   | _ => False
   end.
 Proof. vm_compute. reflexivity. Qed.
+
+(* The calendar side condition of C16_account_totals_mark_to_market / C16_ledger_mark_to_market is
+   needed: mtm_check counts the truncation steps inside [day 0, last day], and dates of the year
+   0000 (which time.Parse and the model accept) are negative day numbers.  Witness: 0.3 AAPL bought
+   on 0000-06-01 and again on 0000-06-02 at 0.33333333: the ledger carries 2 * 0.09999999 =
+   0.19999998 on Assets:P, the market value is 0.6 * 0.33333333 = 0.199999998, the difference
+   1.8e-8 is two legitimate truncations, but the allowance evaluates to 1e-8: the clause reports
+   account-total-not-mark-to-market on a correct ledger.  (The generator of the check never leaves
+   the years 2000-2100; replacing the window start 0 of mtm_check by the journal's first date would
+   remove the corner.) *)
+Definition c16_year0_witness : list sdirective :=
+  let acc s := acc_of_name s in
+  let P := [65;115;115;101;116;115;58;80] (* Assets:P *) in
+  let E := [69;113;117;105;116;121;58;69] (* Equity:E *) in
+  let aapl := [65;65;80;76] in
+  let d0 := Date.of_civil 0 6 1 in
+  [ SOpen d0 (acc P); SOpen d0 (acc E);
+    SPrice d0 aapl (mkDec 33333333 (-8)) chf;
+    STxn (mkStxn d0 [66;117;121] [mkBooking (acc E) (acc P) (mkDec 3 (-1)) aapl] None None);
+    STxn (mkStxn (d0 + 1) [66;117;121] [mkBooking (acc E) (acc P) (mkDec 3 (-1)) aapl] None None) ].
+
+Theorem C16_mark_to_market_without_calendar_condition_refuted :
+  exists sds v dl days a e,
+    parse_directives sds = MOk dl /\ postings_syntactic_b dl = true /\
+    transcode_days true v sds = COk days /\
+    account_ok a = true /\ is_AL a = true /\
+    market_value dl v a (last_date dl) = Some e /\
+    within_bound (posted_total a (days_postings days)) e (step_bound dl a 0 (last_date dl)) = false /\
+    mtm_check dl v (erase_entries v (transcode_entries days [])) <> [].
+Proof.
+  exists c16_year0_witness, chf. do 2 eexists. exists (acc_of_name [65;115;115;101;116;115;58;80]). eexists.
+  split; [vm_compute; reflexivity|]. split; [vm_compute; reflexivity|]. split; [vm_compute; reflexivity|].
+  split; [vm_compute; reflexivity|]. split; [vm_compute; reflexivity|]. split; [vm_compute; reflexivity|].
+  split; [vm_compute; reflexivity|]. vm_compute. discriminate.
+Qed.
+Print Assumptions C16_mark_to_market_without_calendar_condition_refuted.
